@@ -28,6 +28,7 @@
  *   setw <off> <u32>      F[off..off+4) := little-endian value (file grows with zeros if needed)
  *   setb <off> <byte>
  *   trunc <len>           F := first len bytes (or zero-extended)
+ *   leftover <mask>       pre-create ring files of the fixed name (environment probe, see the command)
  *   emit                  -> "file <rle>"
  *   getw <off>            -> "w <off> <value>"
  *   print <errno0>        errno = errno0; rc = qb_log_blackbox_print_from_file(F)
@@ -610,6 +611,19 @@ int main(void)
 				v = F[off] | (F[off + 1] << 8) | (F[off + 2] << 16) | ((unsigned long)F[off + 3] << 24);
 			}
 			printf("w %lu %lu\n", off, v);
+		} else if (strncmp(line, "leftover ", 9) == 0) {
+			/* environment probe: files a crashed / concurrent printer left behind (bit 0: header in /dev/shm,
+			 * bit 1: header in SOCKETDIR, bit 2: data in /dev/shm, bit 3: data in SOCKETDIR) */
+			int m = atoi(line + 9);
+			const char *nm[4] = { "/dev/shm/qb-create_from_file-header", "/var/run/create_from_file-header",
+					      "/dev/shm/qb-create_from_file-data", "/var/run/create_from_file-data" };
+			int k;
+			for (k = 0; k < 4; k++) {
+				if (m & (1 << k)) {
+					int lfd = open(nm[k], O_CREAT | O_RDWR, 0600);
+					if (lfd >= 0) close(lfd);
+				}
+			}
 		} else if (strncmp(line, "emit", 4) == 0) {
 			f_emit();
 		} else if (strncmp(line, "print", 5) == 0) {
